@@ -506,36 +506,40 @@ fn judge_inner(h: &History, out: &Outcome, stats: &mut JudgeStats) -> Vec<Violat
                     if *class != PosClass::MidSurrogate {
                         let locs: Vec<Value> = got.as_array().cloned().unwrap_or_default().into_iter().filter(|l| l["uri"].as_str() == Some(uri.as_str())).collect();
                         let clamped = pos_to_offset(&text, *line, *ch).map(|o| offset_to_pos(&text, o)).unwrap_or((*line, *ch));
-                        let mut decl_hits = 0;
-                        let mut decl_range: Option<Value> = None;
+                        // the declaration is the range go-to-definition gives for any listed location that is not itself that range
+                        let mut def_range: Option<Value> = None;
+                        let mut broken = false;
                         for l in &locs {
-                            if range_contains(&l["range"], clamped.0, clamped.1) {
-                                decl_hits += 1;
-                                decl_range = Some(l["range"].clone());
-                            }
-                        }
-                        let others: Vec<&Value> = locs.iter().filter(|l| Some(&l["range"]) != decl_range.as_ref()).collect();
-                        if !others.is_empty() {
-                            stats.defref_checked += 1;
-                            let mut def_range: Option<Value> = decl_range.clone();
-                            for l in &others {
-                                let (sl, sc) = (l["range"]["start"]["line"].as_u64().unwrap_or(0) as u32, l["range"]["start"]["character"].as_u64().unwrap_or(0) as u32);
-                                match &*reference(uri, &text, &Query::Definition, sl, sc) {
-                                    RefAnswer::Result(d) => {
-                                        let dr = d["range"].clone();
-                                        if d.is_null() || !range_contains(&dr, clamped.0, clamped.1) {
-                                            v.push(Violation { class: "definition_references_disagree".into(), site: "reference_does_not_resolve_to_declaration".into(), detail: format!("step {i}: references at {line}:{ch} lists {} but go-to-definition from there gives {}", l["range"], d), step: i });
-                                            break;
-                                        }
-                                        def_range.get_or_insert(dr);
+                            let (sl, sc) = (l["range"]["start"]["line"].as_u64().unwrap_or(0) as u32, l["range"]["start"]["character"].as_u64().unwrap_or(0) as u32);
+                            if let RefAnswer::Result(d) = &*reference(uri, &text, &Query::Definition, sl, sc) {
+                                if d.is_null() {
+                                    // the location is the declaration itself (go-to-definition on a declaration gives nothing)
+                                    continue;
+                                }
+                                let dr = d["range"].clone();
+                                if !range_contains(&dr, clamped.0, clamped.1) {
+                                    v.push(Violation { class: "definition_references_disagree".into(), site: "reference_does_not_resolve_to_declaration".into(), detail: format!("step {i}: references at {line}:{ch} lists {} but go-to-definition from there gives {}", l["range"], d), step: i });
+                                    broken = true;
+                                    break;
+                                }
+                                match &def_range {
+                                    None => def_range = Some(dr),
+                                    Some(r) if *r != dr => {
+                                        v.push(Violation { class: "definition_references_disagree".into(), site: "references_resolve_to_different_declarations".into(), detail: format!("step {i}: {} vs {}", r, dr), step: i });
+                                        broken = true;
+                                        break;
                                     }
-                                    RefAnswer::Failed(_) => {}
+                                    _ => {}
                                 }
                             }
+                        }
+                        if let (false, Some(dr)) = (broken, def_range.as_ref()) {
+                            stats.defref_checked += 1;
+                            let decl_hits = locs.iter().filter(|l| &l["range"] == dr).count();
                             // the text under every reference is the declared name or one of its symbols
-                            if let Some(dt) = def_range.as_ref().and_then(|r| range_text(&text, r)) {
+                            if let Some(dt) = range_text(&text, dr) {
                                 let name: String = dt.chars().take_while(|c| c.is_alphanumeric() || *c == '_').collect();
-                                for l in &others {
+                                for l in locs.iter().filter(|l| &l["range"] != dr) {
                                     if let Some(rt) = range_text(&text, &l["range"]) {
                                         let ok = rt == name || (rt.starts_with('\'') && dt.contains(&rt));
                                         if !ok {
@@ -546,10 +550,10 @@ fn judge_inner(h: &History, out: &Outcome, stats: &mut JudgeStats) -> Vec<Violat
                                 }
                             }
                             if *decl && decl_hits != 1 {
-                                v.push(Violation { class: "definition_references_disagree".into(), site: "declaration_not_exactly_once".into(), detail: format!("step {i}: with includeDeclaration the declaration appears {decl_hits} times in {}", got.to_string().chars().take(200).collect::<String>()), step: i });
+                                v.push(Violation { class: "definition_references_disagree".into(), site: "declaration_not_exactly_once".into(), detail: format!("step {i}: with includeDeclaration the declaration {} appears {decl_hits} times in {}", dr, got.to_string().chars().take(200).collect::<String>()), step: i });
                             }
                             if !*decl && decl_hits != 0 {
-                                v.push(Violation { class: "definition_references_disagree".into(), site: "declaration_listed_without_include".into(), detail: format!("step {i}"), step: i });
+                                v.push(Violation { class: "definition_references_disagree".into(), site: "declaration_listed_without_include".into(), detail: format!("step {i}: the declaration {} is listed although includeDeclaration is false", dr), step: i });
                             }
                         }
                     }
